@@ -61,11 +61,11 @@ theorem kern_spine_additive (c : Col) (p : Nat) (ts : List (List SubTok)) (r : L
 
 /-- the state machine of the driver reads a cell of a one-column document exactly as `spineRun` does -/
 theorem dataRow_single (st : Model.Kern.St) (c : Col) (cell : List Char) (toks : List SubTok) (ns : List RawNote) (adv : Rat)
-    (hk : c.kern = true) (hdot : cell ≠ ['.']) (hbang : startsWith cell "!" = false)
+    (hk : c.kern = true) (hdot : cell ≠ ['.']) (hbang : startsWith cell "!" = false) (hstar : startsWith cell "*" = false)
     (hp : parseToken cell = some toks) (ht : tokenNotes c 0 toks = some (ns, adv)) :
     dataRow st [(c, 0)] [cell] [] [] =
       some ({ st with notes := ns.reverse ++ st.notes }, [{ c with cursor := c.cursor + adv }]) := by
-  simp [dataRow, hk, hdot, hbang, hp, Model.lookup, ht]
+  simp [dataRow, hk, hdot, hbang, hstar, hp, Model.lookup, ht]
 
 def qC : SubTok := { recip := some (.num 4), dots := 0, pitch := some ("C", 4), alter := 0, grace := false,
                      tOpen := false, tCont := false, tClose := false }
